@@ -20,6 +20,9 @@ import chai2c  # noqa: E402
 from common import clause_map  # noqa: E402
 
 BUILD = os.path.join(VERIF, "build")
+SELFTEST = bool(os.environ.get("VERIF_SELFTEST"))
+EVDIR = os.path.join(BUILD, "selftest-out", str(os.getpid())) if SELFTEST else os.path.join(VERIF, "evidence")
+RPDIR = os.path.join(BUILD, "selftest-out", str(os.getpid())) if SELFTEST else os.path.join(VERIF, "replays")
 STUBS = os.path.join(VERIF, "stubs")
 MEM_KB = 12 * 1024 * 1024
 
@@ -196,7 +199,7 @@ def run_property(prop, tier, builders, seed=0, replay_fn=None, known=None, level
                  extra_assumptions=(), jobs=16, keep=False, post_static=None):
     """builders: list of callables (prop,tier)->KernelBuild."""
     t0 = time.time()
-    work = os.path.join(BUILD, "%s-%s" % (prop, tier))
+    work = os.path.join(BUILD, "%s-%s%s" % (prop, tier, "-st%d" % os.getpid() if SELFTEST else ""))
     shutil.rmtree(work, ignore_errors=True)
     os.makedirs(work, exist_ok=True)
     ev = {"property_id": prop, "tier": tier, "seed": seed, "level": level, "coverage": {}, "assumptions": [],
@@ -320,7 +323,7 @@ def run_property(prop, tier, builders, seed=0, replay_fn=None, known=None, level
 
     # known findings / violations
     rc = 0
-    os.makedirs(os.path.join(VERIF, "replays"), exist_ok=True)
+    os.makedirs(RPDIR, exist_ok=True)
     kf = known or []
     nviol = 0
     for kb, t, pr, cls, name, text in violations:
@@ -337,7 +340,7 @@ def run_property(prop, tier, builders, seed=0, replay_fn=None, known=None, level
                 print(line)
             continue
         nviol += 1
-        rp = os.path.join(VERIF, "replays", "%s-%s-%s.json" % (prop, tname, re.sub(r"\W+", "_", name)))
+        rp = os.path.join(RPDIR, "%s-%s-%s.json" % (prop, tname, re.sub(r"\W+", "_", name)))
         rec = {"property": prop, "target": tname, "function": t.fn if t else None, "obligation": name, "class": cls,
                "description": text, "kernel": kb.kernel, "verifier_status": "FAILURE"}
         suffix = " no-failing-input-found"
@@ -406,12 +409,12 @@ def run_property(prop, tier, builders, seed=0, replay_fn=None, known=None, level
     ev["assumptions"] = allassum
     ev["violations"] = nviol
     ev["wall_s"] = round(time.time() - t0, 2)
-    os.makedirs(os.path.join(VERIF, "evidence"), exist_ok=True)
-    with open(os.path.join(VERIF, "evidence", prop + ".json"), "w") as f:
+    os.makedirs(EVDIR, exist_ok=True)
+    with open(os.path.join(EVDIR, prop + ".json"), "w") as f:
         json.dump(ev, f, indent=1)
     print("%s tier=%s: %d/%d obligations discharged (unbounded), %d/%d bounded, %d excluded, %d targets, %.1fs -> exit %d"
           % (prop, tier, discharged, obligations, bounded_dis, bounded_obl, excluded, len(results), time.time() - t0, rc))
-    if not keep and rc == 0:
+    if (not keep and rc == 0) or SELFTEST:
         shutil.rmtree(work, ignore_errors=True)
     return rc
 
@@ -420,6 +423,6 @@ def write_evidence_undecided(ev, prop, why, t0):
     ev["level"] = "other"
     ev["coverage"] = {"explanation": "run undecided: " + why, "obligations": 0, "discharged": 0, "samples": []}
     ev["wall_s"] = round(time.time() - t0, 2)
-    os.makedirs(os.path.join(VERIF, "evidence"), exist_ok=True)
-    with open(os.path.join(VERIF, "evidence", prop + ".json"), "w") as f:
+    os.makedirs(EVDIR, exist_ok=True)
+    with open(os.path.join(EVDIR, prop + ".json"), "w") as f:
         json.dump(ev, f, indent=1)
